@@ -393,9 +393,11 @@ def discharge(ob: Obligation, rlimit=Z3_RLIMIT, use_cvc5=True):
                 if r2 == z3.sat:
                     m = model_to_dict(s2.model())
                     m["_subgoal"] = str(goal)[:300]
-                    if len(qf) < len(full_hyps):
-                        m["_note"] = "counter-model of the query without its quantified hypotheses (pre-state well-formedness of unrelated containers)"
-                    return "sat", "z3", time.time() - t0, m
+                    if len(qf) == len(full_hyps):
+                        return "sat", "z3", time.time() - t0, m
+                    # quantified hypotheses were left out: only the full query decides (stage 2); keep the model
+                    m["_note"] = "counter-model of the query without its quantified hypotheses"
+                    reduced_model = m
         # stage 2: all hypotheses, solver portfolio
         verdict = None
         last = None
@@ -530,6 +532,9 @@ def verify_function(world, contract, use_cvc5=True, known=(), only_prop=None, pa
         "line": fi.node.lineno,
         "paths": len(paths),
         "feasible_paths": sum(1 for p in paths if p.outcome in ("return", "raise")),
+        "needs_return_path": bool(contract.ensures) and not contract.never_returns,
+        "return_paths": sum(1 for p in paths if p.outcome == "return"),
+        "dead_ends": [p.detail for p in paths if p.outcome in ("ended", "infeasible-pre") and p.detail != "loop body verified"][:10],
         "path_outcomes": _count([p.outcome for p in paths]),
         "path_details": [(p.outcome, p.detail) for p in paths][:40],
         "obligations": list(results.values()),
